@@ -373,15 +373,15 @@ def case_from_json(j, origin):
                 [val_from_json(a) for a in j.get("args", [])], val_from_json(j.get("subst", {"hex": "58"})), origin)
 
 
-def gen_cases(rng, n, per_grammar=3, max_depth=4, features=None, context=False):
+def gen_cases(rng, n, per_grammar=3, max_depth=4, features=None, context=False, scoping=False):
     g = peggen.Gen(rng, max_depth=max_depth, features=features)
     out = []
     while len(out) < n:
-        p = g.context() if context else g.top()
+        p = g.scoping() if scoping else (g.context() if context else g.top())
         if peggen.size(p) > 40:
             continue
-        for _ in range(per_grammar):
-            t = g.text_for(p)
+        for _ in range(per_grammar + (2 if scoping else 0)):
+            t = g.scoping_text(p) if scoping else g.text_for(p)
             st = rng.choice([0, 0, 0, 1, 2, len(t)])
             st = min(st, len(t))
             out.append(Case(p, t, st, g.args(), g.subst()))
@@ -496,7 +496,8 @@ def run(ctx, only_cases=None):
     if only_cases is None:
         cases += gen_cases(ctx.rng.fork("core"), n // 4, features=set(pegref.CORE), max_depth=4)
         cases += gen_cases(ctx.rng.fork("context"), n // 3, context=True)
-        cases += gen_cases(ctx.rng.fork("all"), n - n // 4 - n // 3, max_depth=4)
+        cases += gen_cases(ctx.rng.fork("scoping"), n // 8, scoping=True)
+        cases += gen_cases(ctx.rng.fork("all"), n - n // 4 - n // 3 - n // 8, max_depth=4)
     for c in cases:
         c.leak = leak
     stats = {"cases": len(cases), "harness_lines": 0, "model_lines": 0}
